@@ -12,7 +12,11 @@ QCfg == [ budget |-> 488,
 Rq(svc, tag, mode, idx, n, typ, vals) == [svc |-> svc, tag |-> tag, mode |-> mode, idx |-> idx, n |-> n, off |-> 0, typ |-> typ,
                                           vals |-> vals, bytes |-> <<>>, ms |-> <<>>]
 RqF(svc, tag, idx, n, off, typ, vals) == [Rq(svc, tag, "sym", idx, n, typ, vals) EXCEPT !.off = off]
-Basis == { \* explicit byte offsets: single fragments (the first two values of A[0-2]; its third; a read from its second element)
+\* attribute services (Get / Set Attribute Single on the tag's attribute; text '@class/instance/attribute[=(TYPE)v,...]')
+RqA(svc, tag, typ, vals) == [Rq(svc, tag, "cia", 0 - 1, 0, typ, vals) EXCEPT !.bytes = EncElems(typ, vals)]
+Basis == { RqA("gas", 1, "INT", <<>>), RqA("sas", 1, "INT", << <<21, 0>>, <<22, 0>>, <<23, 0>> >>), RqA("gas", 3, "DINT", <<>>),
+           RqA("sas", 1, "INT", << <<21, 0>>, <<22, 0>> >>),                              \* too short for the attribute: refused
+           \* explicit byte offsets: single fragments (the first two values of A[0-2]; its third; a read from its second element)
            RqF("writef", 1, 0, 3, 0, "INT", << <<7, 0>>, <<8, 0>> >>), RqF("writef", 1, 0, 3, 4, "INT", << <<9, 0>> >>),
            RqF("readf", 1, 0, 3, 2, "INT", <<>>), Rq("read", 1, "sym", 0, 3, "INT", <<>>), Rq("read", 1, "sym", 1, 1, "INT", <<>>), Rq("read", 2, "sym", 0 - 1, 1, "INT", <<>>),
            Rq("write", 1, "sym", 1, 2, "INT", << <<5, 0>>, <<6, 0>> >>), Rq("write", 1, "cia", 0, 1, "INT", << <<44, 1>> >>),
